@@ -589,6 +589,15 @@ cleanup:
 }
 
 
+/* Number of requests the client is holding: those waiting for a response and those waiting to be handed back.
+ * A pushed configuration that waits to be handed out is counted as received, but it is not a request. */
+static size_t asyncClient_heldRequests(const KSI_AsyncClient *c) {
+	size_t n = c->pending + c->received;
+	if (c->serverConf != NULL && c->serverConf->state == KSI_ASYNC_STATE_PUSH_CONFIG_RECEIVED &&
+			c->serverConf->aggrReq == NULL && c->serverConf->extReq == NULL && n > 0) n--;
+	return n;
+}
+
 static int asyncClient_calculateRequestId(KSI_AsyncClient *c, KSI_uint64_t *id, KSI_uint64_t *offset) {
 	int res = KSI_UNKNOWN_ERROR;
 
@@ -599,7 +608,7 @@ static int asyncClient_calculateRequestId(KSI_AsyncClient *c, KSI_uint64_t *id, 
 
 	do {
 		/* Check if the cache is full. */
-		if ((c->options[KSI_ASYNC_OPT_REQUEST_CACHE_SIZE]) <= (c->pending + c->received + 1)) {
+		if ((c->options[KSI_ASYNC_OPT_REQUEST_CACHE_SIZE]) <= (asyncClient_heldRequests(c) + 1)) {
 			res = KSI_ASYNC_REQUEST_CACHE_FULL;
 			goto cleanup;
 		}
@@ -757,7 +766,7 @@ static int addRequest(KSI_AsyncClient *c, KSI_AsyncHandle *handle, void *req,
 		res = req_setRequestId(req, reqId);
 		if (res != KSI_OK) goto cleanup;
 		reqId = NULL;
-	} else if (c->options[KSI_ASYNC_OPT_REQUEST_CACHE_SIZE] <= (c->pending + c->received + 1)) {
+	} else if (c->options[KSI_ASYNC_OPT_REQUEST_CACHE_SIZE] <= (asyncClient_heldRequests(c) + 1)) {
 		/* A configuration request takes no cache slot, but it is a pending request like any other. */
 		res = KSI_ASYNC_REQUEST_CACHE_FULL;
 		goto cleanup;
